@@ -405,6 +405,15 @@ func bigCounterCase(r *h.Rand, chunks int) *h.Case {
 			oracle = "a payload with chunks 0 and 256 exchanged was accepted (counter wraps at 256 chunks)"
 		}
 	}
+	if oracle == "" && chunks > 256 {
+		// 256 full chunks followed by an EMPTY final chunk under counter 256: an empty final chunk is allowed as chunk 0 only
+		// (a reader that looks at the low byte of the counter takes chunk 256 for the first one)
+		em := append(append([]byte(nil), ct[:256*E]...), sealChunk(key, 256, true, nil)...)
+		if _, err := realDecrypt(key, em); err == io.EOF {
+			oracle = "a payload of 256 full chunks followed by an empty final chunk was accepted (two chunkings of one plaintext)"
+		}
+		// … and under counter 255 re-sealed as non-final plus an empty final chunk 256 is the same shape; counter 512 likewise
+	}
 	return &h.Case{Kind: "big-counter", Line: fmt.Sprintf("sencz %s %d %d", h.Hex(key), C, n), Impl: h.Sum(ct), Oracle: oracle, NonTrivial: true,
 		Note: fmt.Sprintf("%d chunks + 5 bytes of zeros", chunks)}
 }
